@@ -544,6 +544,10 @@ def run(ctx):
 
     imported(ctx, C09.rule_P)
     _premises.caches(ctx)
+    # the Gibbs moves between two whole-tree updates and the SMC kernel share one model switch (C04.C2)
+    from . import C04
+
+    imported(ctx, C04.rule_C2)
 
 
 # Self-test catalogue: one textual edit each, applied to a scratch copy (see selftest.py).
